@@ -170,6 +170,16 @@ func ruleDistributor(w *World, r *Run) {
 					// the overall result is read from these two; counters under other metric names (failure reasons, cycles)
 					// are the operator's business and carry their own labels
 					if m != "distribute_rest_attempt" && m != "distribute_rest_success" {
+						// … but their labels must not be text the distributor service supplies: the Prometheus counter panics on
+						// a label that is not valid UTF-8, and the panic ends the whole cycle (the other logs are never attempted)
+						if lab := ie.Args[0]; lab != nil && lab.Kind == "varargs" {
+							for _, la := range lab.Args {
+								peer := anySub(la, func(x *Term) bool {
+									return (x.Kind == "field" && (x.Name == "Status" || x.Name == "Proto" || x.Name == "Header" || x.Name == "Trailer")) || (x.Kind == "call" && (x.Name == "io.ReadAll" || strings.HasPrefix(x.Name, "(net/http.Header).")))
+								})
+								r.Check(!peer, "C15.d", fnDistForLog+" | counter labels are not text supplied by the peer", w.pos(ie.Pos), "counter "+m+" is labelled with "+short(la.String())+", text the distributor service (or a proxy in front of it) supplies: a reason phrase or header that is not valid UTF-8 makes the Prometheus counter panic, which ends the cycle for every log")
+							}
+						}
 						continue
 					}
 					cnt[m]++
